@@ -5,7 +5,8 @@
    round-trip hypothesis  RT : forall a, unnpy (npy a) = Some a  (checked bit-for-bit at
    run time).  All theorems are axiom free. *)
 From Coq Require Import ZArith List String.
-From PV Require Import Num Model_npz Proofs_npz.
+From PV.gen Require Import Gen_tables_npz.
+From PV Require Import Num Model_npz Proofs_npz Proofs_npz_sizes Inst_npz.
 Import ListNotations.
 Local Open Scope string_scope.
 
@@ -183,3 +184,68 @@ Proof. exact save_name_witness. Qed.
 Example C17_nonvacuous :
   wf w_m2 /\ RT wnpy wunnpy /\ ends_with ".npz" "a.npz" = true /\ NoDup (map fst [("x", w_m2); ("x_y", w_t1)]).
 Proof. exact C17_nonvacuous_proof. Qed.
+
+(* ---- every snapshot, not only the first (Proofs_npz_sizes) --------------------------------------- *)
+(* the explicit test of Mineral.save looks at snapshot 0; np.stack does the rest.  Together: save goes through
+   iff the counts agree, there is a snapshot, EVERY fractions array has the shape n_grains :: sf and EVERY
+   orientations array the shape n_grains :: so (one sf, one so for all snapshots), metadata within 0..255 *)
+Theorem C17_save_succeeds_iff_every_snapshot_sized :
+  forall X blob (npy : payload X -> blob) (m : mineral X) fn pf (fs : filesys),
+  snd (save npy m fn pf fs) = Ok tt <-> every_snapshot_sized m.
+Proof.
+  intros X blob npy m fn pf fs.
+  exact (iff_trans (save_succeeds_iff_wf npy m fn pf fs) (wf_iff_every_snapshot_sized m)).
+Qed.
+
+(* a validation that joins the snapshots and checks the TOTAL only (np.concatenate(...).reshape(k, n, ...)) is not
+   this test: n_grains = 2 with snapshots of 2, 1 and 3 grains is refused by the source as it is and accepted by
+   that variant, which stores three snapshots of two grains with one grain moved to the neighbouring time step;
+   on consistent state the two agree *)
+Theorem C17_total_only_validation_refuted :
+  ~ wf cr_m /\ build_data cr_m = Err ValueError /\
+  (exists sf so, build_data_cr cr_m = Ok ([0; 0; 4]%Z, sf, so) /\
+     unstack sf = [cr_arr 2 [] [10; 11]; cr_arr 2 [] [20; 30]; cr_arr 2 [] [31; 32]]%Z /\ unstack sf <> fractions cr_m).
+Proof. exact concat_reshape_refuted. Qed.
+
+Example C17_total_only_validation_agrees_on_valid :
+  let m := mk_mineral 0 0 4 2 [cr_arr 2 [] [10; 11]; cr_arr 2 [] [20; 21]]%Z [cr_arr 2 t1 [1; 2]; cr_arr 2 t1 [3; 4]]%Z in
+  wf m /\ build_data_cr m = build_data m.
+Proof. exact concat_reshape_valid_example. Qed.
+
+(* ---- names, order, packing and tests as read from the source on this run (tie T: gen/Gen_tables_npz.v) ----- *)
+Theorem C17_source_save_structure : gen_save = model_save.
+Proof. exact gen_save_is_model. Qed.
+
+Theorem C17_source_loader_structure :
+  gen_load = model_loader "len(self.fractions[0])" /\ gen_from_file = model_loader "len(fractions[0])".
+Proof. exact (conj gen_load_is_model gen_from_file_is_model). Qed.
+
+(* the member names the postfix branch of the source writes are Model_npz.member; the keys of `data` are the three
+   base names in the model's order *)
+Theorem C17_source_member_names : forall b pf,
+  In (base_name b) (map fst (ss_data gen_save)) /\ fmt (ss_member gen_save) (base_name b) pf = member b (Some pf).
+Proof. exact save_member_names. Qed.
+
+(* metadata = uint8 (phase, fabric, regime) in this order; both stacks are np.stack; the two tests of build_data *)
+Theorem C17_source_packing_and_validation :
+  map snd (ss_data gen_save) = [DMetaU8 ["phase"; "fabric"; "regime"]; DStack "fractions"; DStack "orientations"] /\
+  ss_counts gen_save = ["fractions"; "orientations"] /\ ss_counts_exc gen_save = "ValueError" /\
+  ss_sizes gen_save = [SFirst "fractions"; SFirst "orientations"; SAttr "n_grains"] /\ ss_sizes_exc gen_save = "ValueError" /\
+  ss_zip_mode gen_save = "a" /\ ss_whole_writer gen_save = "np.savez".
+Proof.
+  exact (conj save_data_packing (conj (proj1 save_validation) (conj (proj1 (proj2 save_validation))
+          (conj (proj1 (proj2 (proj2 save_validation))) (conj (proj2 (proj2 (proj2 save_validation))) save_writers))))).
+Qed.
+
+(* the subscripts both loaders read are Model_npz.item, in the order of read_fields; the triple is unpacked as
+   (phase, fabric, regime); suffix test ".npz" with ValueError *)
+Theorem C17_source_loader_items : forall L, L = gen_load \/ L = gen_from_file -> forall pf,
+  map (fun r => fmt (rd_item r) "" pf) (ls_postfix_reads L) = map (fun b => item b (Some pf)) [BMeta; BFractions; BOrientations] /\
+  map (fun r => fmt (rd_item r) "" pf) (ls_plain_reads L) = map (fun b => item b None) [BMeta; BFractions; BOrientations].
+Proof. exact loader_items. Qed.
+
+Theorem C17_source_loader_unpacking : forall L, L = gen_load \/ L = gen_from_file ->
+  map rd_targets (ls_postfix_reads L) = [["phase"; "fabric"; "regime"]; ["fractions"]; ["orientations"]] /\
+  map rd_targets (ls_plain_reads L) = [["phase"; "fabric"; "regime"]; ["fractions"]; ["orientations"]] /\
+  map rd_listed (ls_postfix_reads L) = [false; true; true] /\ map rd_listed (ls_plain_reads L) = [false; true; true].
+Proof. exact loader_unpacking. Qed.
